@@ -84,11 +84,9 @@ Definition entered_args (so : sopts) (m : method) (name : bytes) (args : list gv
   if m_missing m then [GString name; GSlice (expected_args convert (s_dec so) m args)]
   else expected_args convert (s_dec so) m args.
 
-(* the call conforms to the signature: right number of arguments, and no argument reaches reflect as a nil interface *)
-Definition conforms (so : sopts) (m : method) (args : list gval) : Prop :=
-  m_missing m = true \/
-  (arity m (length args) = Eq /\
-   zero_value_at (param_types m (length args)) (expected_args convert (s_dec so) m args) = false).
+(* the call conforms to the signature: the right number of arguments (anything goes for the missing-method handler) *)
+Definition conforms (m : method) (args : list gval) : Prop :=
+  m_missing m = true \/ arity m (length args) = Eq.
 
 Lemma expected_args_length so m args : m_missing m = false ->
   length (expected_args convert (s_dec so) m args) = length args.
@@ -97,13 +95,13 @@ Proof.
   rewrite zipconv_length, param_types_length. apply Nat.min_id.
 Qed.
 
-Lemma execute_conforming so m name args : conforms so m args ->
+Lemma execute_conforming so m name args : conforms m args ->
   execute' m name (expected_args convert (s_dec so) m args) =
   of_fout stack (m_id m) (entered_args so m name args) (impl (m_id m) (entered_args so m name args)).
 Proof.
   intros Hc. unfold execute, entered_args. destruct (m_missing m) eqn:Hm; [reflexivity|].
-  destruct Hc as [Hx|[Ha Hz]]; [congruence|].
-  rewrite (expected_args_length so m args Hm), Ha, Hz. reflexivity.
+  destruct Hc as [Hx|Ha]; [congruence|].
+  rewrite (expected_args_length so m args Hm), Ha. reflexivity.
 Qed.
 
 (* the request premises of C07, bundled *)
@@ -174,7 +172,7 @@ Record response_ok (so : sopts) (rh : headers) : Prop := {
 (* ---- exactly once ---------------------------------------------------------------------------------- *)
 
 Theorem exactly_once : forall co so svc rh rts name args h ops m,
-  request_ok co svc name args h m -> conforms so m args ->
+  request_ok co svc name args h m -> conforms m args ->
   client_encode fuel hp co name args h = CEOk ops ->
   snd (invoke' co so svc rh rts name args h) = [(m_id m, entered_args so m name args)].
 Proof.
@@ -193,7 +191,7 @@ Qed.
 (* ---- remote = local ---------------------------------------------------------------------------------- *)
 
 Theorem equals_local : forall co so svc rh rts name args h ops m vs ops',
-  request_ok co svc name args h m -> conforms so m args -> response_ok so rh ->
+  request_ok co svc name args h m -> conforms m args -> response_ok so rh ->
   client_encode fuel hp co name args h = CEOk ops ->
   impl (m_id m) (entered_args so m name args) = FRet vs None ->
   gval_ok (shape vs) = true -> is_error_value (shape vs) = false -> results_fit fits rts vs ->
@@ -212,7 +210,7 @@ Qed.
 (* ---- errors and panics reach the caller as errors with the same message ------------------------------ *)
 
 Theorem error_propagates : forall co so svc rh rts name args h ops m vs e ops',
-  request_ok co svc name args h m -> conforms so m args -> response_ok so rh ->
+  request_ok co svc name args h m -> conforms m args -> response_ok so rh ->
   client_encode fuel hp co name args h = CEOk ops ->
   impl (m_id m) (entered_args so m name args) = FRet vs (Some e) ->
   service_encode fuel hp so (inr (EPlain e)) rh = CEOk ops' ->
@@ -228,7 +226,7 @@ Proof.
 Qed.
 
 Theorem panic_propagates : forall co so svc rh rts name args h ops m p ops',
-  request_ok co svc name args h m -> conforms so m args -> response_ok so rh ->
+  request_ok co svc name args h m -> conforms m args -> response_ok so rh ->
   client_encode fuel hp co name args h = CEOk ops ->
   impl (m_id m) (entered_args so m name args) = FPanic p ->
   service_encode fuel hp so (inr (EPanicE p stack)) rh = CEOk ops' ->
@@ -263,33 +261,28 @@ Qed.
 
 (* ---- through a proxy ------------------------------------------------------------------------------- *)
 
-Definition proxy_values_ok (s : psig) (vs : list gval) : Prop :=
-  zero_value_at (firstn (Nat.min (length vs) (length (p_outs s))) (p_outs s))
-                (firstn (Nat.min (length vs) (length (p_outs s))) vs) = false.
-
 Theorem proxy_equals_local : forall co so svc rh s ns tag field ins args h ops m vs ops',
   plain (strip_ctx (proxy_in (p_variadic s) ins)) = Some args ->
-  request_ok co svc (mangle ns tag field) args h m -> conforms so m args -> response_ok so rh ->
+  request_ok co svc (mangle ns tag field) args h m -> conforms m args -> response_ok so rh ->
   client_encode fuel hp co (mangle ns tag field) args h = CEOk ops ->
   impl (m_id m) (entered_args so m (mangle ns tag field) args) = FRet vs None ->
   gval_ok (shape vs) = true -> is_error_value (shape vs) = false -> results_fit fits (p_outs s) vs ->
   service_encode fuel hp so (inl (shape vs)) rh = CEOk ops' ->
-  proxy_values_ok s (expected_results zero convert (c_dec co) (p_outs s) vs) ->
   proxy_call fuel hp lower io_dec io_dec_hdrs zero impl stack dec_err_text tr_req tr_resp co so svc rh s ns tag field ins h =
   (let r := expected_results zero convert (c_dec co) (p_outs s) vs in
    let k := Nat.min (length r) (length (p_outs s)) in
    PRet (firstn k r ++ map zero (skipn k (p_outs s))) None,
    [(m_id m, entered_args so m (mangle ns tag field) args)]).
 Proof.
-  intros co so svc rh s ns tag field ins args h ops m vs ops' Hp Hok Hc Hr He Hi Hg Hne Hrf Hse Hz.
+  intros co so svc rh s ns tag field ins args h ops m vs ops' Hp Hok Hc Hr He Hi Hg Hne Hrf Hse.
   unfold proxy_call. rewrite Hp.
   rewrite (equals_local co so svc rh (p_outs s) (mangle ns tag field) args h ops m vs ops' Hok Hc Hr He Hi Hg Hne Hrf Hse).
-  unfold proxy_out. unfold proxy_values_ok in Hz. rewrite Hz. reflexivity.
+  reflexivity.
 Qed.
 
 Theorem proxy_error_propagates : forall co so svc rh s ns tag field ins args h ops m vs e ops',
   plain (strip_ctx (proxy_in (p_variadic s) ins)) = Some args ->
-  request_ok co svc (mangle ns tag field) args h m -> conforms so m args -> response_ok so rh ->
+  request_ok co svc (mangle ns tag field) args h m -> conforms m args -> response_ok so rh ->
   client_encode fuel hp co (mangle ns tag field) args h = CEOk ops ->
   impl (m_id m) (entered_args so m (mangle ns tag field) args) = FRet vs (Some e) ->
   service_encode fuel hp so (inr (EPlain e)) rh = CEOk ops' ->
@@ -305,18 +298,15 @@ Qed.
 
 End C08.
 
-(* ---- findings of the faithful model ---------------------------------------------------------------- *)
-
-(* a nil passed for an interface{} parameter: the service decodes it to a nil interface, reflect.ValueOf(nil)
-   is the zero Value, f.Call panics before the function is entered *)
-Theorem nil_interface_argument_panics : forall impl stack m name,
+(* a nil argument for an interface{} parameter is an ordinary argument: the function is entered with it *)
+Theorem nil_interface_argument_enters : forall impl stack m name,
   m_missing m = false -> m_velem m = None -> m_params m = [TIface] ->
-  execute impl stack m name [GNil] = (XErr (EPanicE msg_zero_arg stack), []).
+  execute impl stack m name [GNil] = of_fout stack (m_id m) [GNil] (impl (m_id m) [GNil]).
 Proof.
-  intros impl stack m name Hm Hv Hp. unfold execute, arity, param_types. rewrite Hm, Hv, Hp. reflexivity.
+  intros impl stack m name Hm Hv Hp. unfold execute, arity. rewrite Hm, Hv, Hp. reflexivity.
 Qed.
 
-(* a nil result in an interface{} result slot of a proxy: reflect.ValueOf(nil) makes MakeFunc panic in the caller *)
-Theorem nil_interface_result_panics : forall zero err,
-  proxy_out zero {| p_variadic := false; p_outs := [TIface]; p_err := err |} (RRes [GNil]) = PPanic msg_makefunc_zero.
+(* a nil result in an interface{} result slot of a proxy is returned as nil *)
+Theorem nil_interface_result_returns : forall zero err,
+  proxy_out zero {| p_variadic := false; p_outs := [TIface]; p_err := err |} (RRes [GNil]) = PRet [GNil] None.
 Proof. reflexivity. Qed.
